@@ -225,9 +225,21 @@ Definition fun_result (fd : fundecl) (o : out) : eres (option value) :=
   | OBreak _ => EStuck
   end.
 
+(* how a compiled function is presented to the VM: its instruction list ([Link.vfunc_of_cfunc]) or its bytes *)
+Record link_ok (link : cfunc -> vfunc) (good : cfunc -> Prop) : Prop := mklink_ok {
+  lk_consts : forall cf, vf_consts (link cf) = cfunc_consts cf;
+  lk_iconsts : forall cf, vf_iconsts (link cf) = cf_iconsts cf;
+  lk_nobj : forall cf, vf_nobj (link cf) = cf_nobj cf;
+  lk_nint : forall cf, vf_nint (link cf) = cf_nint cf;
+  lk_fetch : forall cf, good cf -> forall pc i, instr_at (cf_code cf) pc = Some i -> vf_fetch (link cf) pc = Some i
+}.
+
 Section Fun.
 Variable cfg : config.
 Variable funcs : list vfunc.
+Variable link : cfunc -> vfunc.
+Variable good : cfunc -> Prop.
+Hypothesis Hlink : link_ok link good.
 Variable nat_fun : Z -> list value -> option (list value).
 Variable callf : Z -> list value -> eres (option value).
 Hypothesis Hcall : call_ok cfg funcs nat_fun callf.
@@ -237,20 +249,20 @@ Hypothesis Hmax : 0 <= max_locals cfg.
 
 Notation star := (star cfg funcs nat_fun).
 
-Lemma fun_runs f fd cf : compile_fun cfg fd = COk cf -> fun_ok fd = true ->
+Lemma fun_runs f fd cf : compile_fun cfg fd = COk cf -> good cf -> fun_ok fd = true ->
   forall args sto0 o r, bind_params (fd_params fd) args [] = Some sto0 ->
   block_with (exec (nat_sig cfg) nat_fun callf f) (fd_body fd) sto0 = EOk o -> fun_result fd o = EOk r ->
   forall O IO vl K,
   let B := rev (args_o 0 0 args) ++ O in
   let IB := rev (args_i 0 0 args) ++ IO in
   exists pc' L' IL' X' XI' vl' cr,
-    star (mkstate (enter cfg (vfunc_of_cfunc cf) B IB) B IB vl K)
-         (ExprCorrect.S (vfunc_of_cfunc cf) B IB (len O) (len IO) K pc' L' IL' X' XI' vl') /\
+    star (mkstate (enter cfg (link cf) B IB) B IB vl K)
+         (ExprCorrect.S (link cf) B IB (len O) (len IO) K pc' L' IL' X' XI' vl') /\
     res_rel r cr /\
-    step cfg funcs nat_fun (ExprCorrect.S (vfunc_of_cfunc cf) B IB (len O) (len IO) K pc' L' IL' X' XI' vl')
-    = ret cfg (ExprCorrect.S (vfunc_of_cfunc cf) B IB (len O) (len IO) K pc' L' IL' X' XI' vl') cr.
+    step cfg funcs nat_fun (ExprCorrect.S (link cf) B IB (len O) (len IO) K pc' L' IL' X' XI' vl')
+    = ret cfg (ExprCorrect.S (link cf) B IB (len O) (len IO) K pc' L' IL' X' XI' vl') cr.
 Proof.
-  intros Hcf Hok args sto0 o r Hbp Hexec Hres O IO vl K B IB.
+  intros Hcf Hgood Hok args sto0 o r Hbp Hexec Hres O IO vl K B IB.
   unfold fun_ok in Hok. apply andb_prop in Hok as [Hsafe Hnd]. apply nodup_names_NoDup in Hnd.
   unfold compile_fun in Hcf.
   cinv Hcf. rename a into rt. destruct (negb (supported rt)); [discriminate|].
@@ -258,7 +270,8 @@ Proof.
   set (env := mkce op ip (ty_eqb rt TVoid)) in *.
   set (C := genblock cfg rb 0 ++ (if ty_eqb rt TVoid then [I0 KReturn] else [])) in *.
   destruct (negb (jumps_fit C)); [discriminate|]. inversion Hcfbbb; subst cf. clear Hcfbbb.
-  set (fn := vfunc_of_cfunc (mkcfunc C (cs_consts st) (cs_iconsts st) nobj nint)).
+  set (cf := mkcfunc C (cs_consts st) (cs_iconsts st) nobj nint) in *.
+  set (fn := link cf).
   (* parameters *)
   destruct (split_bind _ _ _ _ _ _ _ _ _ _ _ _ [] [] Hcfba Hbp Hnd) as (Hno & Hni & Hop & Hip);
     try reflexivity; try (intros x i Hx; discriminate). { intros x _. auto. }
@@ -275,7 +288,7 @@ Proof.
   assert (HFL : fl_ok cfg env (cs_locals st)) by exact Hlwf.
   assert (Hfl : in_fl (cs_locals st) st) by (exists []; now rewrite app_nil_r).
   assert (Hpools : pools_ok fn st).
-  { split; intros i s Hs; [exact (nthz_map VStr _ _ _ Hs)|exact Hs]. }
+  { split; intros i s Hs; [subst fn; rewrite (lk_consts _ _ Hlink); exact (nthz_map VStr _ _ _ Hs)|subst fn; rewrite (lk_iconsts _ _ Hlink); exact Hs]. }
   assert (Hginv : ginv cfg (cs_locals st) sto0 (zero_locals cfg) (zero_ilocals cfg)).
   { unfold zero_locals, zero_ilocals. split; [rewrite len_repeat; lia|]. split; [rewrite len_repeat; lia|].
     intros x i Hx. destruct (store_get sto0 x) eqn:Es; [|exact Logic.I]. exfalso.
@@ -283,14 +296,14 @@ Proof.
     destruct (split_params_covers _ _ _ _ _ _ _ _ _ Hcfba) as [_ Hcov]. specialize (Hcov _ Hi).
     destruct Hlwf as [_ Hdis]. specialize (Hdis _ _ Hx). unfold is_param in Hdis. cbn [ce_oparams ce_iparams env] in Hdis.
     destruct (map_get op x), (map_get ip x); try discriminate. destruct Hcov; congruence. }
-  assert (Hfetch : forall pc, vf_fetch fn pc = instr_at C pc) by reflexivity.
+  assert (Hfetch : forall pc i, instr_at C pc = Some i -> vf_fetch fn pc = Some i) by (exact (lk_fetch _ _ Hlink cf Hgood)).
   assert (Hat : code_at C 0 (genblock cfg rb 0)).
   { exists [], (if ty_eqb rt TVoid then [I0 KReturn] else []). split; reflexivity. }
   (* entry state *)
   assert (Henter : mkstate (enter cfg fn B IB) B IB vl K = ExprCorrect.S fn B IB (len O) (len IO) K 0 (zero_locals cfg) (zero_ilocals cfg) [] [] vl).
   { unfold enter, ExprCorrect.S. cbn [app]. f_equal. f_equal.
-    - subst B. rewrite len_app', len_rev. cbn [vf_nobj fn vfunc_of_cfunc cf_nobj]. lia.
-    - subst IB. rewrite len_app', len_rev. cbn [vf_nint fn vfunc_of_cfunc cf_nint]. lia. }
+    - subst B fn. rewrite len_app', len_rev, (lk_nobj _ _ Hlink). cbn [cf cf_nobj]. lia.
+    - subst IB fn. rewrite len_app', len_rev, (lk_nint _ _ Hlink). cbn [cf cf_nint]. lia. }
   rewrite Henter.
   assert (Hsb : forallb safe_stmt (fd_body fd) = true) by exact Hsafe.
   pose proof (block_ok cfg funcs nat_fun callf env fn C B IB (len O) (len IO) K (cs_locals st) f
@@ -349,7 +362,12 @@ Hypothesis Hcomp : compile_prog cfg p = COk cs.
 Hypothesis Hprog : prog_ok p = true.
 Hypothesis Hcfg : config_ok cfg = true.
 
-Let funcs := map vfunc_of_cfunc cs.
+Variable link : cfunc -> vfunc.
+Variable good : cfunc -> Prop.
+Hypothesis Hlink : link_ok link good.
+Hypothesis Hgood : forall cf, In cf cs -> good cf.
+
+Let funcs := map link cs.
 Notation star := (star cfg funcs nat_fun).
 Notation call_sem := (call_sem (nat_sig cfg) nat_fun p).
 
@@ -370,8 +388,9 @@ Proof.
   einvas Hr o.
   destruct (compile_prog_nth cfg _ _ Hcomp _ _ Efd) as (cf & Hcs & Hcf).
   pose proof (prog_ok_nth _ _ _ Hprog Efd) as Hok.
-  assert (Hfun : nthz funcs id = Some (vfunc_of_cfunc cf)) by (apply nthz_map; exact Hcs).
-  destruct (fun_runs cfg funcs nat_fun (call_sem f) IH Hsound Hbind Hmax f fd cf Hcf Hok vs sto0 o r Ebp Hra Hrb O IO vl
+  assert (Hfun : nthz funcs id = Some (link cf)) by (apply nthz_map; exact Hcs).
+  assert (Hg : good cf) by (apply Hgood; unfold nthz in Hcs; destruct (id <? 0); [discriminate|]; eapply nth_error_In; eauto).
+  destruct (fun_runs cfg funcs link good Hlink nat_fun (call_sem f) IH Hsound Hbind Hmax f fd cf Hcf Hg Hok vs sto0 o r Ebp Hra Hrb O IO vl
               ((mkframe fn' pc L IL top' itop', k) :: K'))
     as (pc1 & L1 & IL1 & X1 & XI1 & vl1 & cr & Hs & Hrel & Hstep).
   exists vl1, cr. split; [exact Hrel|].
@@ -387,7 +406,7 @@ Qed.
 (* quasigo.Call on a compiled function returns what the function returns under Go semantics *)
 Theorem call_correct fuel id args r : call_sem fuel id args = EOk r ->
   forall cf, nthz cs id = Some cf ->
-  exists fuel' cr, call_fun cfg funcs nat_fun fuel' (vfunc_of_cfunc cf) args = RDone cr /\ res_rel r cr.
+  exists fuel' cr, call_fun cfg funcs nat_fun fuel' (link cf) args = RDone cr /\ res_rel r cr.
 Proof.
   destruct cfg_facts as (Hsound & Hbind & Hpops & Hmax).
   intros Hr cf Hcs. destruct fuel as [|f]; [discriminate|]. cbn [Sem.call_sem] in Hr.
@@ -396,7 +415,8 @@ Proof.
   einvas Hr o.
   destruct (compile_prog_nth cfg _ _ Hcomp _ _ Efd) as (cf' & Hcs' & Hcf). rewrite Hcs in Hcs'. inversion Hcs'; subst cf'.
   pose proof (prog_ok_nth _ _ _ Hprog Efd) as Hok.
-  destruct (fun_runs cfg funcs nat_fun (call_sem f) (calls_correct f) Hsound Hbind Hmax f fd cf Hcf Hok args sto0 o r Ebp Hra Hrb [] [] 0 [])
+  assert (Hg : good cf) by (apply Hgood; unfold nthz in Hcs; destruct (id <? 0); [discriminate|]; eapply nth_error_In; eauto).
+  destruct (fun_runs cfg funcs link good Hlink nat_fun (call_sem f) (calls_correct f) Hsound Hbind Hmax f fd cf Hcf Hg Hok args sto0 o r Ebp Hra Hrb [] [] 0 [])
     as (pc1 & L1 & IL1 & X1 & XI1 & vl1 & cr & Hs & Hrel & Hstep).
   (* the initial stacks of quasigo.Call *)
   assert (Hpush : forall vs o n, fold_left (fun '(o, n) v => match v with VInt z => (o, z :: n) | _ => (v :: o, n) end) vs (o, n)
@@ -405,7 +425,7 @@ Proof.
     unfold boxed. cbn [Z.eqb negb andb]. rewrite andb_true_r, args_o_shift, args_i_shift.
     destruct v; cbn [is_vint]; rewrite IHv; cbn [rev app]; rewrite <- ?app_assoc; reflexivity. }
   assert (Hrun : exists fuel', run cfg funcs nat_fun fuel'
-                   (mkstate (enter cfg (vfunc_of_cfunc cf) (rev (args_o 0 0 args) ++ []) (rev (args_i 0 0 args) ++ []))
+                   (mkstate (enter cfg (link cf) (rev (args_o 0 0 args) ++ []) (rev (args_i 0 0 args) ++ []))
                       (rev (args_o 0 0 args) ++ []) (rev (args_i 0 0 args) ++ []) 0 []) = RDone cr).
   { eapply run_star; [exact Hs|]. instantiate (1 := 1%nat). cbn [run]. rewrite Hstep. unfold ret, ExprCorrect.S. reflexivity. }
   destruct Hrun as [fuel' Hrun]. exists fuel', cr. split; [|exact Hrel].
@@ -413,13 +433,13 @@ Proof.
   unfold enter. f_equal. f_equal; rewrite !app_nil_r.
   - pose proof Hcf as Hcf2. unfold compile_fun in Hcf2. (* nobj = number of object arguments *)
     cinv Hcf2. destruct (negb (supported a)); [discriminate|]. cinv Hcf2b. destruct a0 as [[[op ip] nobj] nint]. cinv Hcf2bb. destruct a0 as [st rb].
-    destruct (negb (jumps_fit _)); [discriminate|]. inversion Hcf2bbb; subst cf. cbn [vfunc_of_cfunc vf_nobj cf_nobj].
+    destruct (negb (jumps_fit _)); [discriminate|]. rewrite (lk_nobj _ _ Hlink). inversion Hcf2bbb; subst cf. cbn [cf_nobj].
     unfold fun_ok in Hok. apply andb_prop in Hok as [_ Hnd]. apply nodup_names_NoDup in Hnd.
     destruct (split_bind _ _ _ _ _ _ _ _ _ _ _ _ [] [] Hcf2ba Ebp Hnd) as (Hno & _); try reflexivity; try (intros x i Hx; discriminate). { intros x _. auto. }
     cbn [app] in Hno. rewrite Hno, len_rev. lia.
   - pose proof Hcf as Hcf2. unfold compile_fun in Hcf2.
     cinv Hcf2. destruct (negb (supported a)); [discriminate|]. cinv Hcf2b. destruct a0 as [[[op ip] nobj] nint]. cinv Hcf2bb. destruct a0 as [st rb].
-    destruct (negb (jumps_fit _)); [discriminate|]. inversion Hcf2bbb; subst cf. cbn [vfunc_of_cfunc vf_nint cf_nint].
+    destruct (negb (jumps_fit _)); [discriminate|]. rewrite (lk_nint _ _ Hlink). inversion Hcf2bbb; subst cf. cbn [cf_nint].
     unfold fun_ok in Hok. apply andb_prop in Hok as [_ Hnd]. apply nodup_names_NoDup in Hnd.
     destruct (split_bind _ _ _ _ _ _ _ _ _ _ _ _ [] [] Hcf2ba Ebp Hnd) as (_ & Hni & _); try reflexivity; try (intros x i Hx; discriminate). { intros x _. auto. }
     cbn [app] in Hni. rewrite Hni, len_rev. lia.
